@@ -38,7 +38,10 @@ pub const INFO: Info = Info {
            tryptic peptides so that peptides are shared between proteins; internal decoys, or FASTA-supplied rev_ \
            entries with generate_decoys=false; optional variable M-oxidation, static C / N-terminal mods), then \
            written into the request and rebuilt with Parameters::build_from_peptides; (b) synthetic peptide tables \
-           (modified forms, terminal mods, shared protein groups, up to 420 targets). PSM lists: 0-80 PSMs (big: up \
+           (modified forms, terminal mods, shared protein groups, up to 420 targets). With FASTA-supplied decoys some TARGET \
+           entries list decoy-tagged accessions as well (tag at the start or in the middle, sorted lists; from the real \
+           builder via tagged FASTA proteins sharing forward peptides, in the synthetic / directed / large tables by \
+           construction); decoy entries never list untagged proteins (the builder cannot produce that). PSM lists: 0-80 PSMs (big: up \
            to ~1600), peptides hit many times, target and decoy of a pair both hit, score modes distinct / small grid \
            (ties) / all equal / single class / well separated (passing count > 0). Directed: exactly 99/100/101/150/200 \
            confident targets (q lands on / next to 0.01), a decoy among 250/400 confident targets (decoy row with \
@@ -598,8 +601,20 @@ fn big_table(seed: u64, n: usize, mixk: u64, gd: bool) -> (DbSpec, Vec<BigPsm>) 
             // FASTA-style decoys: every entity its own key
             let decoy = c >= null_cut;
             let m = bell(hsh(seed, i as u64, 2)) + if c < conf_cut { CONF_SHIFT } else { 0 };
-            let name = format!("{}Q{}", if decoy { "rev_" } else { "" }, group(i));
-            peps.push(PepSpec { decoy, seq, mods: vec![], nterm: None, cterm: None, prots: vec![name] });
+            let g = group(i);
+            // one target group in 256 also lists a decoy-tagged accession (few enough to keep their q-values below the
+            // threshold, so that the passing count has to include them) (a function of the group, so that the
+            // group string is still determined by (g, decoy flag): the Lean mirror's entity ids are unchanged)
+            let prots = if decoy {
+                vec![format!("rev_Q{g}")]
+            } else {
+                match hsh(seed, g as u64, 9) % 512 {
+                    0 => vec![format!("Q{g}"), format!("rev_Q{g}")],
+                    1 => vec![format!("Q{g}"), format!("sp|rev_Q{g}|X")],
+                    _ => vec![format!("Q{g}")],
+                }
+            };
+            peps.push(PepSpec { decoy, seq, mods: vec![], nterm: None, cterm: None, prots });
             psms.push(BigPsm { pep: i, m });
             extra(&mut psms, i, i, m);
         } else {
@@ -753,7 +768,24 @@ fn real_db(rng: &mut Rng) -> DbSpec {
             rev.push_str(&format!(">rev_sp|P{p:03}|X\n{r}\n"));
         }
     }
-    fasta.push_str(&rev);
+    let mut chunk_b = String::new();
+    if !gd && rng.chance(1, 2) {
+        // decoy-tagged proteins (tag at the start / in the middle of the accession) that share forward
+        // peptides with the targets, in a SECOND FASTA chunk: the chunked (prefilter) build digests each chunk
+        // on its own and merges with reorder_peptides, which turns each shared peptide into one target entry
+        // whose sorted protein list names both kinds (inside a single chunk the decoy copy is dropped instead)
+        for k in 0..1 + rng.below(2) {
+            let mut seq = String::new();
+            for _ in 0..1 + rng.below(3) {
+                seq.push_str(*rng.pick(POOL));
+            }
+            if rng.chance(1, 2) {
+                chunk_b.push_str(&format!(">rev_sp|S{k:03}|X\n{seq}\n"));
+            } else {
+                chunk_b.push_str(&format!(">tr|rev_S{k:03}|X\n{seq}\n"));
+            }
+        }
+    }
     let mut vm = std::collections::HashMap::new();
     if rng.chance(1, 3) {
         vm.insert("M".to_string(), vec![15.9949f32]);
@@ -781,7 +813,16 @@ fn real_db(rng: &mut Rng) -> DbSpec {
         ..Default::default()
     }
     .make_parameters();
-    let db = params.build(Fasta::parse(fasta, "rev_", gd));
+    let db = if chunk_b.is_empty() {
+        fasta.push_str(&rev);
+        params.build(Fasta::parse(fasta, "rev_", gd))
+    } else {
+        chunk_b.push_str(&rev);
+        let mut all = params.digest(&Fasta::parse(fasta, "rev_", gd));
+        all.extend(params.digest(&Fasta::parse(chunk_b, "rev_", gd)));
+        sage_core::database::Parameters::reorder_peptides(&mut all);
+        params.build_from_peptides(all)
+    };
     spec_of_db(&db)
 }
 
@@ -821,7 +862,20 @@ fn synth_db(rng: &mut Rng, nt: usize, groups: usize, with_mods: bool) -> DbSpec 
                 cterm = Some(-0.984);
             }
         }
-        let t = PepSpec { decoy: false, seq: seq.clone(), mods: mods.clone(), nterm, cterm, prots: prots.clone() };
+        // FASTA-supplied decoys: a peptide shared between an untagged and a decoy-tagged protein is ONE TARGET
+        // entry listing both (group_digests / reorder_peptides: `decoy &= ..`, proteins sorted and deduplicated),
+        // tag at the start or in the middle of the accession. A decoy entry never lists an untagged protein.
+        let mut tprots = prots.clone();
+        if !gd && rng.chance(1, 4) {
+            let k = rng.below(groups.max(1));
+            tprots.push(if rng.chance(1, 2) { format!("rev_P{k}") } else { format!("sp|rev_P{k}|X") });
+            if rng.chance(1, 4) {
+                tprots.push(format!("rev_P{}", rng.below(groups.max(1))));
+            }
+            tprots.sort();
+            tprots.dedup();
+        }
+        let t = PepSpec { decoy: false, seq: seq.clone(), mods: mods.clone(), nterm, cterm, prots: tprots };
         // what Peptide::reverse does
         let n = seq.len() - 1;
         let mut rs = seq.clone();
@@ -1145,7 +1199,13 @@ pub fn gen(rng: &mut Rng, tier: Tier, emit: &mut dyn FnMut(Case)) {
                     mods: vec![],
                     nterm: None,
                     cterm: None,
-                    prots: vec![format!("{}Q{}", if i >= t { "rev_" } else { "" }, i)],
+                    // two of the confident target groups also list a decoy-tagged accession (tag at the start / in the
+                    // middle): they stay target groups, pass the threshold with the others and must be counted
+                    prots: if i < t && (i == 3 || i == 10) {
+                        vec![format!("Q{i}"), if i == 10 { format!("rev_Z{i}") } else { format!("sp|rev_Z{i}|X") }]
+                    } else {
+                        vec![format!("{}Q{}", if i >= t { "rev_" } else { "" }, i)]
+                    },
                 });
             }
             let db = DbSpec { gd: false, tag: "rev_".into(), peps };
@@ -1168,7 +1228,13 @@ pub fn gen(rng: &mut Rng, tier: Tier, emit: &mut dyn FnMut(Case)) {
                 mods: vec![],
                 nterm: None,
                 cterm: None,
-                prots: vec![format!("{}Q{}", if i >= t { "rev_" } else { "" }, i)],
+                // two of the confident target groups also list a decoy-tagged accession (tag at the start / in the
+                    // middle): they stay target groups, pass the threshold with the others and must be counted
+                    prots: if i < t && (i == 3 || i == 10) {
+                        vec![format!("Q{i}"), if i == 10 { format!("rev_Z{i}") } else { format!("sp|rev_Z{i}|X") }]
+                    } else {
+                        vec![format!("{}Q{}", if i >= t { "rev_" } else { "" }, i)]
+                    },
             });
         }
         let db = DbSpec { gd: false, tag: "rev_".into(), peps };
